@@ -27,7 +27,7 @@ POOL = [
     "$.sliceWhere($ > 1)", "$.groupBy($ mod 2, $, $.sum())", "$.groupBy($ mod 2, $, [$[0], $[1].sum()])", "$.groupBy($ mod 2, aggregator => $.len())", "$.enumerate().select($[0] * $[1])", "$.join($, $1 = $2, [$1, $2]).len()", "let(d => {a => $}) -> $d.a.select($ + 1)",
 ]
 
-MUTABLES = [[3, 1, 2, 1], {'b': 1, 'a': [1, 2]}, {'@c': 1, 'b': 2, 'a b': [3]}, {1, 2, 3}, [[1, 2], [3]], [{'k': 1, 'v': [1]}, {'k': 2, 'v': []}], [['a', 1], ['b', 2]], ['x', 'yy']]
+MUTABLES = [[3, 1, 2, 1], {'b': 1, 'a': [1, 2]}, {'@c': 1, 'b': 2, 'a b': [3]}, [(1, ['r', 'g']), (2, ['b'])], {1, 2, 3}, [[1, 2], [3]], [{'k': 1, 'v': [1]}, {'k': 2, 'v': []}], [['a', 1], ['b', 2]], ['x', 'yy']]
 
 
 def deep_eq(a, b):
@@ -194,15 +194,16 @@ def run(rep, tier, seed, keep=False):
         nsweep = 0
         mutated = 0
         ntimeout = 0
-        for conv in (True, False):
-            eng_ = yaql.YaqlFactory().create(options={'yaql.convertInputData': conv})
+        for conv, conv_out in ((True, True), (False, True), (True, False)):
+            # (with output conversion off the result is what the evaluation built: it must still not be the host's own containers)
+            eng_ = yaql.YaqlFactory().create(options={'yaql.convertInputData': conv, 'yaql.convertOutputData': conv_out})
             cx = yaql.create_context()
             chain0 = snap_chain(cx)
             # every parameter that accepts a sequence, a mapping or a set (mutable host data of any kind)
             cases, _ = c08.sweep_cases(cx, eng_, probes=[lambda: iter(()), lambda: {'a': 1}, lambda: [1], lambda: {1}])
             texts = set()
             for (name, fd, ti, pname, spec, generic) in cases:
-                for mv in (MUTABLES[:5] if quick else MUTABLES):
+                for mv in (MUTABLES[:6] if quick else MUTABLES):
                     try:
                         if not fd.parameters[pname].value_type.check(mv, cx, eng_) and not (isinstance(mv, (list, dict)) and conv):
                             continue
@@ -253,7 +254,7 @@ def run(rep, tier, seed, keep=False):
                         continue
                     nsweep += 1
                     rep.evaluations += 1
-                    case = {'text': text, 'data': repr(d0), 'convertInputData': conv}
+                    case = {'text': text, 'data': repr(d0), 'convertInputData': conv, 'convertOutputData': conv_out}
                     if not deep_eq(data, d0):
                         mutated += 1
                         rep.violation('C09/data-mutated/%s' % name, '%s (convertInputData=%s) changed host data %r -> %r' % (text, conv, d0, data), case)
